@@ -464,6 +464,37 @@ def r5e_grid_counts_truncate(repo: Repo, rep):
             rep.check(R, not up or known_ceil, fi.site(), fi.fq, "grid side counts are truncated", str(up[:2]), f"rounded-up grid counts {up[:2]}")
 
 
+def r5f_count_from_own_measure(repo: Repo, rep):
+    R = rep.rule("R-C10-5f", "a boundary turns a density into a count with its OWN measure: its samplers never delegate the conversion to a helper of the inner domain "
+                 "(which multiplies with the interior's volume)", floor=8,
+                 why="ceil(density * area) points on a boundary of length L: 100 instead of 40 on the boundary of a 10 x 10 square")
+    bd = repo.cls(f"{DOM}.domain.BoundaryDomain")
+    for ci in repo.subclasses(bd, strict=True):
+        inner = None
+        init = ci.methods.get("__init__")
+        if init is not None:
+            for n in ast.walk(init.node):
+                if isinstance(n, ast.Assert) and isinstance(n.test, ast.Call) and attr_chain(n.test.func) == "isinstance" and len(n.test.args) == 2:
+                    got = repo.lookup(ci.module, dump(n.test.args[1]))
+                    if got is not None and hasattr(got, "methods"):
+                        inner = got
+        for mname in ("sample_random_uniform", "sample_grid"):
+            fi = ci.methods.get(mname)
+            if fi is None:
+                continue
+            rep.saw(fi)
+            bad = []
+            for c in ast.walk(fi.node):
+                if isinstance(c, ast.Call) and isinstance(c.func, ast.Attribute) and dump(c.func.value) == "self.domain":
+                    if c.func.attr == "compute_n_from_density":
+                        bad.append(dump(c)[:60])
+                    elif inner is not None:
+                        h = repo.resolve_method(inner, c.func.attr)
+                        if h is not None and any(isinstance(x, ast.Call) and dump(x.func) == "self.compute_n_from_density" for x in ast.walk(h.node)):
+                            bad.append(f"{dump(c)[:50]} -> {h.fq.split('.')[-2]}.{h.name} uses the inner domain's volume")
+            rep.check(R, not bad, fi.site(), fi.fq, "density -> count with the boundary's own measure", str(bad[:2]), f"interior measure for a boundary count: {bad[:1]}")
+
+
 def r5b_estimated_volumes(repo: Repo, rep):
     R = rep.rule("R-C10-5b", "domain operations never turn a density into a count through their own volume (it is a documented estimate for union / intersection / non-contained cut / dependent product): "
                  "they sample their operands with the density", floor=4,
@@ -561,6 +592,7 @@ def run(repo: Repo, rep):
     r5b_estimated_volumes(repo, rep)
     r5c_density_grids(repo, rep)
     r5d_exclusive_contributions(repo, rep)
+    r5f_count_from_own_measure(repo, rep)
     r3b_flags_from_the_user(repo, rep)
     r5e_grid_counts_truncate(repo, rep)
     from .c06 import r4c_mesh_outward  # the mesh volume is signed: it is the measure only for outward-facing faces
